@@ -1,10 +1,43 @@
 (* C12 — Qiskit conversion preserves the circuit's unitary, or refuses.
    Statements only; every proof is [exact <lemma>].  The model (Model/Convert.v)
    carries the REPAIRED post-selection rule (finding F2) and reads qubits as
-   circuit-level indices (finding N10).  What is proved here is about the
-   converter's DECISIONS; the gate matrices are C13, Circuit.add is C02, and the
-   amplitude-level statement is checked on the implementation by the oracle of
-   harness/c12.py. *)
+   circuit-level indices (finding N10).
+
+   First part: the converter's DECISIONS (adjacency, analyser, refusals, emitted program,
+   emitted program = source program at qubit level, post-selection abstraction).
+
+   Second part (from "PHOTONIC LEVEL" on; Proofs/DualRail*.v): the amplitude-level theorem for
+   allow_post_selection = False (DESIGN "### C12", T2 convert_heralded_correct), machine-checked
+   instead of left to the numerical oracle:
+     C12_acts_as_dual_rail_def      the definition: 2*nq visible modes, heralds inserted by
+                                    add_heralds_to_state on both sides, vacuum on the loss modes;
+                                    amp(dr b -> dr b') = K * V[b',b] with factor 1, and amplitude 0
+                                    for EVERY other occupation list of the visible modes
+     C12_dual_rail_initial          Circuit(2*nq) acts as the identity (K = 1)
+     C12_dual_rail_step             the step lemma: adding (Circuit.add at user mode 2q) a gate
+                                    circuit that acts on its k qubits as kG * M with zero leakage
+                                    gives K*kG and (M on qubits q..q+k-1) . V, zero leakage; the add
+                                    is accepted.  Proof: C02_add_amplitudes; the sum over the
+                                    intermediate Fock states collapses onto the dual-rail states
+     C12_gate_fact_from_C13         the gate hypothesis of the step lemma follows from a gate
+                                    statement in exactly the form C13 proves it (Simulator entries
+                                    on dual-rail inputs, zero for the other accepted outputs)
+     C12_step_single_qubit_gate, C12_step_swap, C12_step_heralded_gates_tower_B
+                                    the gate kinds the converter emits in heralded-only mode
+     C12_qubit_semantics / C12_qubit_semantics_laws
+                                    the qubit-level semantics used for "the source program's
+                                    unitary" and its relabelling laws (those of
+                                    C12_emitted_denotes_source), without functional extensionality
+     C12_convert_heralded_correct   for EVERY program accepted in heralded-only mode: the circuit
+                                    obtained by running the emitted operations through the Circuit
+                                    model from Circuit(2*nq) acts as (product of the k_i) * V_src
+                                    with zero leakage (any scalar ring in which the heralded gates
+                                    satisfy their C13 statements); ..._tower_B: the instance in the
+                                    exact number field of C13, |k_i|^2 = 1/16
+     C12_convert_heralded_example   h(0); cx(0,1): hypotheses hold, conclusion recomputed by
+                                    vm_compute (8 modes, 4 photons), K conj K = 1/16.
+   Still with the oracle of harness/c12.py: allow_post_selection = True (post-selected gates leak
+   by construction; the abstract soundness statement is C12_post_selection_sound_abstract). *)
 From Coq Require Import List Arith Bool PeanoNat Lia Permutation.
 From LW Require Import Base.Sx Model.Convert Proofs.ConvertP.
 Import ListNotations.
@@ -235,3 +268,273 @@ Example C12_denote_laws_satisfiable :
   (forall i a b t s, w_act Gccx i [a; b; t] s = w_act Gccx i [b; a; t] s) /\
   w_act Gswap 0 [0; 1] [0; 1; 2] = [1; 0; 2].
 Proof. exact denote_laws_satisfiable. Qed.
+
+(* ====================================================================== *)
+(* PHOTONIC LEVEL: heralded-only conversion is correct at amplitude level   *)
+(* ====================================================================== *)
+From Coq Require Import ZArith NArith.
+From LW Require Import Base.Num Base.Sums Base.Mat Base.NumField Model.State Model.Circuit Model.World Model.Fock
+     Model.Gates Proofs.PermP Proofs.DisplayP Proofs.WiringMat Proofs.GatesP
+     Proofs.DualRailDefs Proofs.DualRailSem Proofs.DualRailFull Proofs.DualRailP Proofs.DualRailConv
+     Proofs.DualRailMain Proofs.DualRailB.
+Local Open Scope nat_scope.
+
+(* Vocabulary.  o : ops K the "reals", co o = cplx o the complex pairs; e the parameter environment.
+   [dr b] / [drn b] the dual-rail state of the bit list b (qubit 0 first) as Python ints / naturals;
+   a qubit operator is V : list bool -> list bool -> K*K, V b' b = <b'|V|b>.
+   [dr_shape c nq]: c is well formed (C19), has 2*nq non-ancilla modes, every herald sits on an
+   ancilla created by Circuit.add with 0 or 1 photons, as many herald photons in as out.
+   [lift_blk t M q k V] = (M on qubits q..q+k-1) composed after V; [lift_swap qa qb V] = SWAP . V. *)
+Theorem C12_acts_as_dual_rail_def :
+  forall (K : Type) (o : ops K) (e : env (K:=K)) (c : circ (K:=K)) (nq : nat) (Kc : K * K) (V : qmat (K * K)),
+    acts_as_dual_rail o e c nq Kc V <->
+    (dr_shape c nq /\
+     exists l U, build o e c = Ok (c_n c + l, U) /\
+       forall (b : list bool) (y : list nat), In b (bits nq) -> length y = 2 * nq ->
+         exists fi fy,
+           add_heralds_to_state (dr b) (hdz (c_in c)) = Ok fi /\
+           add_heralds_to_state (map Z.of_nat y) (hdz (c_out c)) = Ok fy /\
+           let x' := znat fi ++ repeat 0 l in
+           let y' := znat fy ++ repeat 0 l in
+           (forall b', In b' (bits nq) -> y = drn b' ->
+              amp_perm (co o) U x' y' = kmul (co o) Kc (V b' b) /\ amp_factor x' y' = 1) /\
+           ((forall b', In b' (bits nq) -> y <> drn b') -> amp_perm (co o) U x' y' = k0 (co o))).
+Proof. exact (fun K o e c nq Kc V => conj (fun H => H) (fun H => H)). Qed.
+Print Assumptions C12_acts_as_dual_rail_def.
+
+Theorem C12_dr_shape_def :
+  forall (K : Type) (c : circ (K:=K)) (nq : nat),
+    dr_shape c nq <->
+    (WFH c /\ Forall swnd (c_spec c) /\ c_n c = 2 * nq + length (c_int c) /\
+     (forall i, In i (dkeys (c_in c)) <-> In i (c_int c)) /\
+     (forall i, In i (dkeys (c_out c)) <-> In i (c_int c)) /\
+     (forall kv, In kv (c_in c) -> snd kv <= 1) /\ (forall kv, In kv (c_out c) -> snd kv <= 1) /\
+     osum (dvals (c_in c)) = osum (dvals (c_out c))).
+Proof. exact (fun K c nq => conj (fun H => H) (fun H => H)). Qed.
+Print Assumptions C12_dr_shape_def.
+
+(* the hypothesis of the step lemma on the added gate circuit: well formed, 2k open modes, heralds
+   of 0/1 photons with the same numbers at input and output, lossless, and on full states (heralds
+   on the herald modes, the open modes in ascending order) amp(dr b -> dr b') = kG * M[b',b], 0 for
+   every other occupation list of the open modes *)
+Theorem C12_gate_ok_def :
+  forall (K : Type) (o : ops K) (e : env (K:=K)) (sub : circ (K:=K)) (k : nat) (kG : K * K) (M : qmat (K * K)),
+    gate_ok o e sub k kG M <->
+    (WFH sub /\ Forall swnd (c_spec sub) /\ 1 <= k /\
+     c_n sub = 2 * k + length (c_in sub) /\ length (c_in sub) = length (c_out sub) /\
+     dvals (c_out sub) = dvals (c_in sub) /\ (forall kv, In kv (c_in sub) -> snd kv <= 1) /\
+     exists US, build o e sub = Ok (c_n sub, US) /\
+       forall b w xs ys, In b (bits k) -> length w = 2 * k ->
+         full_st (c_n sub) 0 (c_in sub) (drn b) xs -> full_st (c_n sub) 0 (c_out sub) w ys ->
+         (forall b', In b' (bits k) -> w = drn b' -> amp_perm (co o) US xs ys = kmul (co o) kG (M b' b)) /\
+         ((forall b', In b' (bits k) -> w <> drn b') -> amp_perm (co o) US xs ys = k0 (co o))).
+Proof. exact (fun K o e sub k kG M => conj (fun H => H) (fun H => H)). Qed.
+Print Assumptions C12_gate_ok_def.
+
+(* ... which follows from a gate statement in the form of C13 (C13_CZ_Heralded, C13_CNOT_Heralded,
+   C13_single_qubit_gates ...): Simulator entries kG * M on dual-rail inputs/outputs with factor 1,
+   and 0 for every accepted non-dual-rail output *)
+Theorem C12_gate_fact_from_C13 :
+  forall (K : Type) (o : ops K), StarRing o -> ZMorph o ->
+  forall (e : env (K:=K)) (gt : @gate K) (k : nat) (kG : K * K) (M : qmat (K * K)),
+    ((forall b b', In b (bits k) -> In b' (bits k) ->
+        sim_amp o gt (dr b) (dr b') = Ok (kmul (co o) kG (M b' b), 1)) /\
+     (forall b t, In b (bits k) -> In t (zstates (2 * k) k) -> undr t = None ->
+        exists f, sim_amp o gt (dr b) t = Ok (k0 (co o), f))) ->
+    WFH (g_circ gt) -> Forall swnd (c_spec (g_circ gt)) -> 1 <= k ->
+    c_n (g_circ gt) = 2 * k + length (c_in (g_circ gt)) ->
+    length (c_in (g_circ gt)) = length (c_out (g_circ gt)) ->
+    dvals (c_out (g_circ gt)) = dvals (c_in (g_circ gt)) ->
+    (forall kv, In kv (c_in (g_circ gt)) -> snd kv <= 1) ->
+    build o e (g_circ gt) = Ok (c_n (g_circ gt), g_U gt) ->
+    gate_ok o e (g_circ gt) k kG M.
+Proof. exact (fun K o SR ZM e gt k kG M => @gate_ok_of_c13 K o SR e gt k kG M). Qed.
+Print Assumptions C12_gate_fact_from_C13.
+
+(* the scalars: a commutative *-ring with canonical integers in which 1/k exists (as in C02) *)
+Theorem C12_dual_rail_initial :
+  forall (K : Type) (o : ops K), StarRing o -> ZMorph o ->
+  forall (e : env (K:=K)) (nq : nat),
+    acts_as_dual_rail o e (new_circ (2 * nq)) nq (k1 (co o)) (qid (co o)).
+Proof. exact (fun K o SR ZM => @dual_rail_initial K o SR ZM). Qed.
+Print Assumptions C12_dual_rail_initial.
+
+(* D2, the step lemma: generic in the gate (k adjacent qubits from q on, added at user mode 2q,
+   grouped or not) and in the scalar ring *)
+Theorem C12_dual_rail_step :
+  forall (K : Type) (o : ops K), StarRing o -> ZMorph o ->
+  forall (ninv : nat -> K * K), (forall k, 0 < k -> kmul (co o) (kofnat (co o) k) (ninv k) = k1 (co o)) ->
+  forall (e : env (K:=K)) (c sub c' : circ (K:=K)) (nq q k : nat) (Kc kG : K * K) (V M : qmat (K * K)) (g : bool),
+    acts_as_dual_rail o e c nq Kc V -> gate_ok o e sub k kG M -> q + k <= nq ->
+    (exists c0, op_add o c sub (Z.of_nat (2 * q)) g = Ok c0) /\
+    (op_add o c sub (Z.of_nat (2 * q)) g = Ok c' ->
+     acts_as_dual_rail o e c' nq (kmul (co o) Kc kG) (lift_blk (co o) M q k V)).
+Proof. exact (fun K o SR ZM ninv Hn => @dual_rail_step K o SR ZM ninv Hn). Qed.
+Print Assumptions C12_dual_rail_step.
+
+(* (i) single-qubit gates: ANY 2 x 2 array handed to Unitary (all of I H X Y Z S Sadj T Tadj SX and
+   the rotations are of this form, C13_single_qubit_gates / C13_rotation_gates) is a gate with
+   k = 1, kG = 1 and M = the array *)
+Theorem C12_step_single_qubit_gate :
+  forall (K : Type) (o : ops K), StarRing o -> ZMorph o ->
+  forall rows : list (list (K * K)),
+    exists gt, compile_gate o (Ok [OUnitary 0 2 rows]) 0 = Ok gt /\
+      g_circ gt = unitary_circ 2 (of_rows (co o) rows) /\
+      gate_ok o (env0 o) (g_circ gt) 1 (k1 (co o)) (m1_of (of_rows (co o) rows)).
+Proof. exact (fun K o SR ZM => @unitary2_gate_ok K o SR). Qed.
+Print Assumptions C12_step_single_qubit_gate.
+
+(* (ii) SWAP of two different qubits, added at mode 0 as the converter does: K unchanged, V |-> SWAP . V *)
+Theorem C12_step_swap :
+  forall (K : Type) (o : ops K), StarRing o -> ZMorph o ->
+  forall (ninv : nat -> K * K), (forall k, 0 < k -> kmul (co o) (kofnat (co o) k) (ninv k) = k1 (co o)) ->
+  forall (c c' : circ (K:=K)) (nq qa qb : nat) (Kc : K * K) (V : qmat (K * K)),
+    acts_as_dual_rail o (env0 o) c nq Kc V -> qa <> qb -> qa < nq -> qb < nq ->
+    exists gt, gate_SWAP o (zq (2 * qa) (2 * qa + 1)) (zq (2 * qb) (2 * qb + 1)) = Ok gt /\
+      (exists c0, op_add o c (g_circ gt) 0%Z false = Ok c0) /\
+      (op_add o c (g_circ gt) 0%Z false = Ok c' ->
+       acts_as_dual_rail o (env0 o) c' nq Kc (lift_swap qa qb V)).
+Proof. exact (fun K o SR ZM ninv Hn => @dual_rail_swap_step K o SR ZM ninv Hn). Qed.
+Print Assumptions C12_step_swap.
+
+(* (iii) CZ_Heralded and CNOT_Heralded (either target) in the number field of C13: the step lemma's
+   hypothesis holds with k = 2, M = spec_CZ / spec_CNOT tq and 16 |kG|^2 = 1 *)
+Theorem C12_step_heralded_gates_tower_B :
+  (exists gt kG, gate_CZ_Heralded oB b_h b_r2 b_qi b_g = Ok gt /\
+     kmul cB (kofZ cB 16) (kmul cB kG (kconj cB kG)) = k1 cB /\
+     gate_ok oB (env0 oB) (g_circ gt) 2 kG (spec_CZ cB)) /\
+  (exists gt kG, gate_CNOT_Heralded oB b_h b_r2 b_qi b_g 0%Z = Ok gt /\
+     kmul cB (kofZ cB 16) (kmul cB kG (kconj cB kG)) = k1 cB /\
+     gate_ok oB (env0 oB) (g_circ gt) 2 kG (spec_CNOT cB 0)) /\
+  (exists gt kG, gate_CNOT_Heralded oB b_h b_r2 b_qi b_g 1%Z = Ok gt /\
+     kmul cB (kofZ cB 16) (kmul cB kG (kconj cB kG)) = k1 cB /\
+     gate_ok oB (env0 oB) (g_circ gt) 2 kG (spec_CNOT cB 1)).
+Proof. exact (conj CZH_gate_ok (conj CNOTH0_gate_ok CNOTH1_gate_ok)). Qed.
+Print Assumptions C12_step_heralded_gates_tower_B.
+
+(* ---- the qubit-level semantics of a program (Proofs/DualRailSem.v) ----
+   A state of the semantics is a finite list of entries (row label, column label, value) of an
+   operator; labels are binary numbers (bit q = qubit q); [sval] reads an entry, [lab b] is the
+   label of a bit list.  [sact t m1 g i qs] applies instruction g (parameter index i) to the qubits
+   qs AFTER the operator, [ssw a b] exchanges qubits a and b.  On basis labels: *)
+Theorem C12_qubit_semantics :
+  forall (T : Type) (t : ops T), StarRing t ->
+  forall (m1 : gname -> nat -> qmat T),
+    (forall nq b b', In b (bits nq) -> In b' (bits nq) -> sval t (s_id t nq) (lab b') (lab b) = delta t b' b) /\
+    (forall g i q nq s b' c, is_single g = true \/ is_rot g = true -> q < nq -> In b' (bits nq) ->
+       sval t (sact t m1 g i [q] s) (lab b') c =
+       suml t (bits 1) (fun x => kmul t (m1 g i (slice b' q 1) x) (sval t s (lab (splice b' q x)) c))) /\
+    (forall i q nq s b' c, q + 1 < nq -> In b' (bits nq) ->
+       sval t (sact t m1 Gcz i [q; q + 1] s) (lab b') c =
+       suml t (bits 2) (fun x => kmul t (spec_CZ t (slice b' q 2) x) (sval t s (lab (splice b' q x)) c))) /\
+    (forall i q tq nq s b' c, tq <= 1 -> q + 1 < nq -> In b' (bits nq) ->
+       sval t (sact t m1 Gcx i [q + (1 - tq); q + tq] s) (lab b') c =
+       suml t (bits 2) (fun x => kmul t (spec_CNOT t tq (slice b' q 2) x) (sval t s (lab (splice b' q x)) c))) /\
+    (forall qa qb nq s b' c, qa < nq -> qb < nq -> In b' (bits nq) ->
+       sval t (ssw qa qb s) (lab b') c = sval t s (lab (swapbits qa qb b')) c).
+Proof.
+  exact (fun T t SR m1 =>
+    conj (@sval_id T t SR)
+   (conj (@sval_act1 T t SR m1)
+   (conj (@sval_cz T t SR m1)
+   (conj (@sval_cx T t SR m1) (@sval_sw T t))))).
+Qed.
+Print Assumptions C12_qubit_semantics.
+
+(* it satisfies the six laws C12_emitted_denotes_source asks for, for ALL arguments, with Leibniz
+   equality (no functional extensionality): so the emitted program and the source program have the
+   same operator *)
+Theorem C12_qubit_semantics_laws :
+  forall (T : Type) (t : ops T) (m1 : gname -> nat -> qmat T),
+    (forall a b c d (s : @sst T), a <> c -> a <> d -> b <> c -> b <> d -> ssw a b (ssw c d s) = ssw c d (ssw a b s)) /\
+    (forall a b g i qs s, ssw a b (sact t m1 g i qs (ssw a b s)) = sact t m1 g i (map (transp a b) qs) s) /\
+    (forall i a b s, sact t m1 Gswap i [a; b] s = ssw a b s) /\
+    (forall i a b s, sact t m1 Gcz i [a; b] s = sact t m1 Gcz i [b; a] s) /\
+    (forall i l l' s, Permutation l l' -> sact t m1 Gccz i l s = sact t m1 Gccz i l' s) /\
+    (forall i a b x s, sact t m1 Gccx i [a; b; x] s = sact t m1 Gccx i [b; a; x] s).
+Proof. exact (fun T t m1 => @sem_laws T t m1). Qed.
+Print Assumptions C12_qubit_semantics_laws.
+
+(* ---- D3: every program the converter accepts with allow_post_selection = False ----
+   h, r2, qi, gm = 1/sqrt 2, sqrt 2, 2^(-1/4), gamma of the scalar ring (r3i, r7 are used by the
+   post-selected gates only); ang i = the amplitude pair of the rotation angle of instruction i.
+   [run_emitted]: the emitted operations executed as the converter does: the lightworks.qubit gate
+   object ([gate_of]: gate_sq / gate_rq / gate_SWAP / gate_CZ_Heralded / gate_CNOT_Heralded of
+   Model/Gates.v, each built through the World machine) is added with Circuit.add at its mode.
+   [Vsrc o h ang nq gs]: the operator of the SOURCE program gs in the semantics above, single-qubit
+   matrices = the matrices C13 names (named_sq / named_rq).
+   [kprod]: the product of the scalars of the emitted heralded gates. *)
+Theorem C12_convert_heralded_correct :
+  forall (K : Type) (o : ops K), StarRing o -> ZMorph o ->
+  forall (ninv : nat -> K * K), (forall k, 0 < k -> kmul (co o) (kofnat (co o) k) (ninv k) = k1 (co o)) ->
+  forall (h r2 r3i qi gm r7 : K) (ang : nat -> K * K),
+    kmul o h h = kq o 1 2 ->
+  forall (gtCZ gtCX0 gtCX1 : @gate K) (kcz kcx0 kcx1 : K * K),
+    gate_CZ_Heralded o h r2 qi gm = Ok gtCZ /\ gate_ok o (env0 o) (g_circ gtCZ) 2 kcz (spec_CZ (co o)) ->
+    gate_CNOT_Heralded o h r2 qi gm 0%Z = Ok gtCX0 /\ gate_ok o (env0 o) (g_circ gtCX0) 2 kcx0 (spec_CNOT (co o) 0) ->
+    gate_CNOT_Heralded o h r2 qi gm 1%Z = Ok gtCX1 /\ gate_ok o (env0 o) (g_circ gtCX1) 2 kcx1 (spec_CNOT (co o) 1) ->
+  forall (nq : nat) (gs : list qgate) (ops : list eop) (rules : option (list nat)),
+    Forall (ConvertP.in_range nq) gs -> Forall (fun g => NoDup (g_qubits g)) gs ->
+    convert false gs = Ok (ops, rules) ->
+    rules = None /\
+    exists c, run_emitted o h r2 r3i qi gm r7 ang ops (new_circ (2 * nq)) = Ok c /\
+              acts_as_dual_rail o (env0 o) c nq (kprod o kcz kcx0 kcx1 ops (k1 (co o))) (Vsrc o h ang nq gs).
+Proof. exact (fun K o SR ZM ninv Hn => @convert_heralded_correct K o SR ZM ninv Hn). Qed.
+Print Assumptions C12_convert_heralded_correct.
+
+(* the instance in the exact number field of the heralded gates (C13 tower B): the three gate
+   hypotheses are C13_CZ_Heralded / C13_CNOT_Heralded, each scalar has 16 |k|^2 = 1; through
+   C13_evaluation_towers every equation is an equation between complex numbers *)
+Theorem C12_convert_heralded_correct_tower_B :
+  exists kcz kcx0 kcx1 : TB,
+    (kmul cB (kofZ cB 16) (kmul cB kcz (kconj cB kcz)) = k1 cB /\
+     kmul cB (kofZ cB 16) (kmul cB kcx0 (kconj cB kcx0)) = k1 cB /\
+     kmul cB (kofZ cB 16) (kmul cB kcx1 (kconj cB kcx1)) = k1 cB) /\
+    forall (ang : nat -> KB * KB) (nq : nat) (gs : list qgate) (ops : list eop) (rules : option (list nat)),
+      Forall (ConvertP.in_range nq) gs -> Forall (fun g => NoDup (g_qubits g)) gs ->
+      convert false gs = Ok (ops, rules) ->
+      rules = None /\
+      exists c, run_emitted oB b_h b_r2 (k0 oB) b_qi b_g (k0 oB) ang ops (new_circ (2 * nq)) = Ok c /\
+                acts_as_dual_rail oB (env0 oB) c nq (kprod oB kcz kcx0 kcx1 ops (k1 cB)) (Vsrc oB b_h ang nq gs).
+Proof. exact convert_heralded_correct_B. Qed.
+Print Assumptions C12_convert_heralded_correct_tower_B.
+
+(* what [run_emitted], [kprod], [Vsrc] are *)
+Theorem C12_run_emitted_def :
+  forall (K : Type) (o : ops K) (h r2 r3i qi gm r7 : K) (ang : nat -> K * K) (kcz kcx0 kcx1 : K * K)
+         (ops : list eop) (c : circ (K:=K)) (nq : nat) (gs : list qgate),
+    run_emitted o h r2 r3i qi gm r7 ang ops c =
+      fold_left (fun r op => do c0 <- r;
+                             do gt <- gate_of o h r2 r3i qi gm r7 ang op;
+                             op_add o c0 (g_circ gt) (Z.of_nat (op_mode op)) false) ops (Ok c) /\
+    kprod o kcz kcx0 kcx1 ops (k1 (co o)) =
+      fold_left (fun a op => kmul (co o) a (match op with
+                                            | ECZ true _ => kcz
+                                            | ECX true 0 _ => kcx0
+                                            | ECX true _ _ => kcx1
+                                            | _ => k1 (co o)
+                                            end)) ops (k1 (co o)) /\
+    Vsrc o h ang nq gs =
+      (fun b' b => sval (co o) (run_src sst (sact (co o) (m1 o h ang)) 0 gs (s_id (co o) nq)) (lab b') (lab b)) /\
+    (forall s i, m1 o h ang Gh i = m1_of (named_sq o h gH) /\ m1 o h ang Grz i = m1_of (named_rq o gRz (fst (ang i)) (snd (ang i))) /\
+                 gate_of o h r2 r3i qi gm r7 ang (ECZ true s) = gate_CZ_Heralded o h r2 qi gm /\
+                 gate_of o h r2 r3i qi gm r7 ang (ECX true i s) = gate_CNOT_Heralded o h r2 qi gm (Z.of_nat i)).
+Proof. exact (fun K o h r2 r3i qi gm r7 ang kcz kcx0 kcx1 ops c nq gs =>
+                conj eq_refl (conj eq_refl (conj eq_refl (fun s i => conj eq_refl (conj eq_refl (conj eq_refl eq_refl)))))). Qed.
+Print Assumptions C12_run_emitted_def.
+
+(* non-vacuity: h(0); cx(0,1) on two qubits.  The converter emits H at mode 0 and CNOT_Heralded(1)
+   at mode 0; the resulting circuit (8 modes: the four ancillas 0, 1, 6, 7 carry 0, 1, 1, 0 photons)
+   is built through the model over tower B and its amplitudes are recomputed: K * V on all 4 x 4
+   dual-rail pairs with K = 1/4 and V = CNOT . (H x I) (written out by hand AND as Vsrc), 0 on the
+   six other two-photon outputs of every basis input; 16 K conj K = 1 *)
+Example C12_convert_heralded_example :
+  convert false ex_gs = Ok ([EGate1 Gh 0 0; ECX true 1 0], None) /\
+  Forall (ConvertP.in_range 2) ex_gs /\ Forall (fun g => NoDup (g_qubits g)) ex_gs /\
+  check_table oB ex_gate 2 kB_czh ex_V = true /\ check_leak oB ex_gate 2 = true /\
+  forallb (fun b => forallb (fun b' => keqb cB (Vsrc oB b_h ex_ang 2 ex_gs b' b) (ex_V b' b)) (bits 2)) (bits 2) = true /\
+  keqb cB (kprod oB kB_czh kB_czh kB_czh ex_ops (k1 cB)) kB_czh = true /\
+  kmul cB (kofZ cB 16) (kmul cB kB_czh (kconj cB kB_czh)) = k1 cB /\
+  match ex_gate with Ok gt => (c_n (g_circ gt), c_in (g_circ gt), c_int (g_circ gt)) | Err _ => (0, [], []) end
+  = (8, [(0, 0); (1, 1); (6, 1); (7, 0)], [0; 1; 6; 7]).
+Proof. exact convert_heralded_example. Qed.
